@@ -26,12 +26,24 @@ Fixpoint urun (st : tgt) (ops : list dop) : list (list (list N)) :=
 (* download: one op
    10 download(name, data, off(4), resuming, preview, hasinfo, info, hasrsrc, rsrc, type, creator, mtime)
       -> [transfer size(4); file size(4); stream] *)
+(* the client's cut of a download stream (same rule as harness/c09.go splitDownload) *)
+Definition split_download (stream : list N) (preview : bool) (n : N) : list (list N) :=
+  let head := if preview then Some 0
+              else if len stream <? 40 then None
+              else let h := 40 + dbe (firstn 4 (skipn 36 stream)) + 16 in
+                   if len stream <? h then None else Some h in
+  match head with
+  | None => [stream; []; []]
+  | Some h => let rest := dropN h stream in
+              [takeN h stream; takeN (N.min n (len rest)) rest; dropN (N.min n (len rest)) rest]
+  end.
+
 Definition dmodel (args : list (list N)) : list (list N) :=
   let f := mk_dfile (a 0 args) (a 1 args) (if flag (a 5 args) then Some (a 6 args) else None)
                     (if flag (a 7 args) then Some (a 8 args) else None) (a 9 args) (a 10 args) (a 11 args) in
   let off := dbe (a 2 args) in
   let '(x, s) := dl_reply f off (flag (a 4 args)) in
-  [x; s; dl_stream f off (flag (a 3 args)) (flag (a 4 args))].
+  [x; s] ++ split_download (dl_stream f off (flag (a 3 args)) (flag (a 4 args))) (flag (a 4 args)) (dbe s).
 
 Definition model (ops : list dop) : list (list (list N)) :=
   match ops with
@@ -78,7 +90,13 @@ Definition oracle (ops : list dop) (obs : list (list (list N))) : bool :=
       let rest := dropN off data in
       (* the model's stream is compared by M; here: reply sizes and the preview rule, judged independently *)
       bytes_eqb (a 1 ob) (be32 (len rest)) &&
-      (if preview then bytes_match rest (a 2 ob) else true) &&
+      (* after the header (whose own INFO size field locates the data fork) come exactly the remaining data bytes *)
+      bytes_match rest (a 3 ob) &&
+      (if preview then bytes_eqb (a 2 ob) [] && bytes_eqb (a 4 ob) [] else true) &&
+      (* the header names the file (synthesised fork): name-size field = length of the name that follows *)
+      (if negb preview && negb (flag (a 5 args))
+       then bytes_eqb (firstn (2 + List.length (a 0 args)) (skipn 110 (a 2 ob))) (be16 (len (a 0 args)) ++ a 0 args)
+       else true) &&
       (if negb hasrsrc && negb preview
        then bytes_eqb (a 0 ob) (be32 (len rest + 56 + (if flag (a 5 args) then len (a 6 args) else 74 + len (a 0 args))))
        else true)
